@@ -80,6 +80,8 @@ func sameErr(a, b ssa.Value) bool {
 	return false
 }
 
+var freshNest int
+
 func freshError(v ssa.Value) bool {
 	v = stripIface(v)
 	switch x := v.(type) {
@@ -88,6 +90,21 @@ func freshError(v ssa.Value) bool {
 	case *ssa.Call:
 		if isCallToPkgFunc(x, "fmt", "Errorf") || isCallToPkgFunc(x, "errors", "New") || isCallToPkgFunc(x, "errors", "Join") {
 			return true
+		}
+		// an error constructor of the module: every return of it is itself a fresh error
+		if callee := x.Call.StaticCallee(); callee != nil && callee.Blocks != nil && freshNest < 3 {
+			freshNest++
+			defer func() { freshNest-- }()
+			all, any := true, false
+			for _, b := range callee.Blocks {
+				if rt, isRet := b.Instrs[len(b.Instrs)-1].(*ssa.Return); isRet && len(rt.Results) == 1 {
+					any = true
+					if !freshError(lastStoreInBlock(rt.Results[0])) {
+						all = false
+					}
+				}
+			}
+			return all && any
 		}
 	case *ssa.UnOp:
 		if x.Op == token.MUL {
@@ -175,7 +192,9 @@ func checkFailureReported(c *Ctx, r *Run, rule string) {
 				detail := ""
 				if !held {
 					if isNilConst(stripIface(v)) {
-						if why, rev := errSwallowReviewed[c.FuncName(fn)]; rev {
+						if abortSessionCarries(ret, e) {
+							held = true // (round.Session, error): the failure travels in the abort session, the handler reports it
+						} else if why, rev := errSwallowReviewed[c.FuncName(fn)]; rev {
 							held = true
 							_ = why
 						} else {
@@ -365,4 +384,26 @@ func checkBitMasks(c *Ctx, r *Run, rule string) {
 		}
 	}
 	r.Hold(rule, "mask-tests|examined", "", fmt.Sprintf("%d single-bit mask tests examined", sites))
+}
+
+// abortSessionCarries: the return hands back Helper.AbortRound(e') with e' the tested error, a wrap of it or a fresh error.
+func abortSessionCarries(ret *ssa.Return, e ssa.Value) bool {
+	for _, res := range ret.Results[:len(ret.Results)-1] {
+		call, ok := stripIface(res).(*ssa.Call)
+		if !ok {
+			continue
+		}
+		callee := call.Call.StaticCallee()
+		if callee == nil || callee.Name() != "AbortRound" || callee.Pkg == nil || !strings.HasSuffix(callee.Pkg.Pkg.Path(), "internal/round") {
+			continue
+		}
+		args := call.Call.Args
+		if len(args) < 2 {
+			continue
+		}
+		if sameErr(args[1], e) || freshError(args[1]) || wrapsValue(args[1], e) {
+			return true
+		}
+	}
+	return false
 }
